@@ -105,6 +105,72 @@ def work(item):
         for x in standards.constructed_inputs(name):
             n += 1
             nt += compare(res, name, m, ref, x, 'constructed', 1)
+        # valid numbers according to the *reference* (E2 run on the reference itself): what the standard accepts must be
+        # accepted by the implementation, also in branches for which the implementation's own valid set has no member
+        class _RefModule(object):
+            __name__ = name + '#reference'
+
+            @staticmethod
+            def validate(x):
+                v = ref(x)
+                if v is None:
+                    raise ValueError('rejected by the reference')
+                return v
+
+            @staticmethod
+            def is_valid(x):
+                return ref(x) is not None
+        import types
+        try:
+            from .. import seeds as seedmod
+            svr = [(s_, v_) for s_, v_ in seedmod.seeds(name, 6) if ref(v_) == v_]
+            nodes = {}
+            for s_, v_ in svr:
+                nodes[v_] = 0
+            alpha_r = ''.join(c for c in standards.ALPHABETS[name] if not c.isspace() and c not in '-.:')
+            for v_ in list(nodes)[:4]:
+                for i in range(len(v_)):
+                    for c in alpha_r:
+                        if c == v_[i]:
+                            continue
+                        t = v_[:i] + c + v_[i + 1:]
+                        if ref(t) == t:
+                            nodes[t] = 1
+                            continue
+                        # repair the last position (and the IBAN / ISO 11649 check digits) with the reference
+                        for p_ in (len(t) - 1,):
+                            for r in alpha_r:
+                                u = t[:p_] + r + t[p_ + 1:]
+                                if u != t and ref(u) == u:
+                                    nodes[u] = 1
+                                    break
+                        if len(nodes) > (400 if quick else 4000):
+                            break
+            for v_ in nodes:
+                n += 1
+                nt += compare(res, name, m, ref, v_, 'ref-valid', 1)
+            res['extra']['reference_valid_numbers'] = {name: len(nodes)}
+        except RuntimeError:
+            raise
+        # every two-letter prefix in front of the body of a seed (country tables of ISIN / ISRC / IBAN / BIC)
+        if name in ('stdnum.isin', 'stdnum.isrc', 'stdnum.iban', 'stdnum.bic'):
+            from .. import seeds as seedmod
+            for s_, v_ in seedmod.seeds(name, 2):
+                for a in standards.U:
+                    for b in standards.U:
+                        if name == 'stdnum.bic':
+                            x = v_[:4] + a + b + v_[6:]
+                            cands = [x]
+                        else:
+                            x = a + b + v_[2:]
+                            cands = [x]
+                            if name == 'stdnum.isin':
+                                cands += [x[:-1] + d for d in standards.D if d != x[-1]]
+                            if name == 'stdnum.iban':
+                                cands = [a + b + '%02d' % (98 - standards.mod97(v_[4:] + a + b + '00')) + v_[4:]]
+                        for x in cands:
+                            n += 1
+                            nt += compare(res, name, m, ref, x, 'prefix-sweep', 1)
         # documented validate() options with the reference adapted to them
         optrefs = []
         if name == 'stdnum.isbn':
